@@ -271,7 +271,9 @@ def run_generic(ctx, two_slots, replay=None):
         cfgs = LOADCFG if thorough else LOADCFG[:3]
         for k, h in enumerate(hists):
             cname, clines = cfgs[k % len(cfgs)] if not thorough else cfgs[rng.randrange(len(cfgs))]
-            lines = ["reset 2", "option xmldigest 1", "init 0", "synthetic 0 " + desc] + clines + ["load 0"] + render(h, info[name], choices)
+            # every other behaviour also queries the stores (distances, memory attributes, CPU kinds) after each call: the queries refresh cached
+            # state inside the library, so both regimes are run; with them the dup relation compares the stores of both copies too
+            lines = ["reset 2", "option xmldigest 1"] + (["option stores 1"] if k % 2 else []) + ["init 0", "synthetic 0 " + desc] + clines + ["load 0"] + render(h, info[name], choices)
             behs.append("\n".join(lines) + "\n")
     ctx.samples = [behs[0], behs[len(behs) // 2], behs[-1]]
     bf = ctx.path("behaviours.txt")
